@@ -232,8 +232,13 @@ func (st *State) havocHeap(h string) {
 	if !ok {
 		return
 	}
+	old := st.cur(h, sort)
 	st.heaps[h] = st.g.heapConst(h, sort)
 	st.markWritten(h)
+	if h == "$brk" {
+		// the allocation watermark only grows
+		st.assume(fmt.Sprintf("(>= (select %s 0) (select %s 0))", st.heaps[h], old))
+	}
 }
 
 // ---- location access ----
@@ -269,6 +274,8 @@ func (st *State) scalar(t types.Type, term string) Val {
 	}
 	if isInteger(t) {
 		st.assumeRange(t, term)
+	} else if !isFloat(t) {
+		st.assume(fmt.Sprintf("(<= 0 %s)", term)) // references are non-negative
 	}
 	return IntV(term)
 }
